@@ -1708,6 +1708,14 @@ func R58() Rule {
 									for _, a := range x.Call.Args {
 										walk(a, d+1)
 									}
+									// a helper of the RPC: what it returns (`latestValueAndWriteTimestamp(col, clock)`)
+									if sc := x.Call.StaticCallee(); sc != nil && sc.Blocks != nil && core.PkgPathOf(sc) == core.PkgBttest {
+										for _, r := range returnsIn(sc) {
+											for _, res := range r.Results {
+												walk(res, d+1)
+											}
+										}
+									}
 								default:
 									if inst, isI := v.(ssa.Instruction); isI {
 										for _, op := range inst.Operands(nil) {
